@@ -156,8 +156,17 @@ def make_case(rng, idx, tier):
     opts = {'verbose': rng.randint(0, 3)}
     if rng.random() < 0.5:
         opts['buffer'] = True
-    if rng.random() < 0.15:
-        opts['repeat'] = 2
+    if rng.random() < 0.2:
+        opts['repeat'] = rng.choice([2, 2, 3])
+        if rng.random() < 0.6:
+            # the faulty tests go wrong in the first iteration only (state
+            # left behind makes the re-run pass): recorded all the same
+            for k in tbl:
+                for t in tbl[k]:
+                    if t['kind'] in ('fail', 'error', 'teardown_error',
+                                     'body_teardown_error', 'subtests',
+                                     'cleanup_error', 'setup_error'):
+                        t['kinds_seq'] = [t['kind'], 'pass']
     if rng.random() < 0.06:
         opts['processes'] = 2
     # the other formatters (colourised, progress) print failures their own way
